@@ -84,7 +84,7 @@ def cross_group_check(agg, report, what):
 def run_parsers(prop, tier):
     t0 = time.monotonic()
     base = core.base_seed()
-    wall = budget(tier, 55)
+    wall = budget(tier, 75)
     scratch = core.Scratch(NW + 0)
     report = runner.Report(prop)
     agg = Agg()
@@ -160,7 +160,7 @@ def run_parsers(prop, tier):
                     for k, v in (res.get("stats") or {}).items():
                         agg.stats["enum_" + k] += v
                     for vres in res.get("violating", []):
-                        report.add_violation(vres, hs_of[group], scratch)
+                        report.add_violation(vres, hs_of[group], scratch, pool=pool)
                         if len(report.violations) >= MAX_REPORTS:
                             pool.stop = True
                     return
@@ -180,7 +180,7 @@ def run_parsers(prop, tier):
                 if job.get("want_trace") and res.get("trace") and len(agg.samples) < 3:
                     agg.samples.append(_sample_of(res["trace"]))
                 if res.get("status") == "violation" and group == "A":
-                    report.add_violation(res, hs_of[group], scratch)
+                    report.add_violation(res, hs_of[group], scratch, pool=pool)
                     if len(report.violations) >= MAX_REPORTS:
                         pool.stop = True
             pool.run(jobs, on_result, deadline=deadline)
